@@ -91,7 +91,7 @@ func (_this *Context) GetBuiltArrayAsString() string {
 //   - nextRunesBytes will contain the remaining complete runes. The last
 //     incomplete rune, if any, will be stripped out and buffered for the next
 //     call.
-func (_this Context) StreamStringData(data []byte) (firstRuneBytes []byte, nextRunesBytes []byte) {
+func (_this *Context) StreamStringData(data []byte) (firstRuneBytes []byte, nextRunesBytes []byte) {
 	nextRunesBytes = data
 
 	remainderLength := len(_this.utf8RemainderBuffer)
